@@ -38,18 +38,19 @@ type Case struct {
 	Bufs        []int  `json:"bufs"`
 	Args        []Arg  `json:"args"`
 	// what the generator knows BY CONSTRUCTION (never read off the observed result)
-	Auth   bool   `json:"auth"`              // authentication tag / integrity value is genuine
-	Prim   bool   `json:"prim"`              // the asymmetric primitive / parser has to succeed
-	Sig    bool   `json:"sig"`               // the signature is genuine
-	OutLen int    `json:"out_len"`           // length of the primitive's result (-1: unknown)
-	Dec    string `json:"dec,omitempty"`     // hex: what raw CBC decryption of the ciphertext yields
-	Path   string `json:"path"`              // which path the generator aimed at
+	Auth   bool   `json:"auth"`          // authentication tag / integrity value is genuine
+	Prim   bool   `json:"prim"`          // the asymmetric primitive / parser has to succeed
+	Sig    bool   `json:"sig"`           // the signature is genuine
+	OutLen int    `json:"out_len"`       // length of the primitive's result (-1: unknown)
+	Dec    string `json:"dec,omitempty"` // hex: what raw CBC decryption of the ciphertext yields
+	Path   string `json:"path"`          // which path the generator aimed at
 	DstMod string `json:"dst_mode,omitempty"`
+	Layout string `json:"layout,omitempty"` // "wire": all arguments are adjacent sub-slices of one buffer
 }
 
 // Obs is what one call did.
 type Obs struct {
-	Class   string   // ok | ok:true | ok:false | err:<Sentinel> | err:other | panic | timeout
+	Class   string // ok | ok:true | ok:false | err:<Sentinel> | err:other | panic | timeout
 	PanicV  string
 	Ret     []string // per returned slice "<len>:<where>"
 	RetHex  string   // first returned slice, hex (compared for the padding functions)
@@ -330,16 +331,25 @@ func allowed(c *Case, buf, i int) bool {
 	return false
 }
 
-// region names where a cell lies relative to the arguments (for the finding id).
+// region names where a changed run [i, hi] lies relative to the arguments (for the finding id).
+// A cell can be an element of one argument and spare capacity of another (arguments packed into
+// one buffer). An append announces itself by starting exactly at the end of an argument's
+// length; anything else that hits an argument's own elements is a write into that argument.
 func region(c *Case, buf, i int) string {
-	// the spare capacity of an argument first: that is where an append lands, whatever else the
-	// caller keeps there (another argument, unrelated data)
-	for _, a := range c.Args {
-		if a.Nil || a.Buf != buf || a.Name == "dst" {
+	for _, a := range c.Args { // append signature: the run starts right behind len(arg) ...
+		if a.Nil || a.Buf != buf || a.Name == "dst" || a.Cap == a.Len {
 			continue
 		}
-		if i >= a.Off+a.Len && i < a.Off+a.Cap {
-			return a.Name + "-capacity"
+		if i == a.Off+a.Len {
+			inElems := false // ... and does not start at the first element of another argument
+			for _, e := range c.Args {
+				if !e.Nil && e.Buf == buf && e.Len > 0 && i == e.Off && e.Name != a.Name {
+					inElems = true
+				}
+			}
+			if !inElems {
+				return a.Name + "-capacity"
+			}
 		}
 	}
 	for _, a := range c.Args {
@@ -348,6 +358,14 @@ func region(c *Case, buf, i int) string {
 		}
 		if i >= a.Off && i < a.Off+a.Len {
 			return a.Name + "-elements"
+		}
+	}
+	for _, a := range c.Args {
+		if a.Nil || a.Buf != buf || a.Name == "dst" {
+			continue
+		}
+		if i >= a.Off+a.Len && i < a.Off+a.Cap {
+			return a.Name + "-capacity"
 		}
 	}
 	return "outside-any-argument"
